@@ -139,7 +139,7 @@ func genForProgram(r *rand.Rand) prog {
 	g := &forGen{r: r, equs: map[string]int{}}
 	var items []item
 	// EQUs defined before use (the single-pass scanner requires it)
-	for i := r.Intn(4); i > 0; i-- {
+	for i := r.Intn(5); i > 0; i-- {
 		n := fmt.Sprintf("k%d", len(g.equs))
 		v := r.Intn(5)
 		g.equs[n] = v
@@ -154,6 +154,13 @@ func genForProgram(r *rand.Rand) prog {
 			d := r.Intn(3)
 			toks = []tok{sym(prev), op("+"), num(d)}
 			g.equs[n] = g.equs[prev] + d
+		}
+		if len(g.equs) > 2 && r.Intn(3) == 0 {
+			// an EQU defined through two other EQUs (a diamond when one of them refers to the other)
+			a, b := r.Intn(len(g.equs)-1), r.Intn(len(g.equs)-1)
+			na, nb := fmt.Sprintf("k%d", a), fmt.Sprintf("k%d", b)
+			toks = []tok{sym(na), op("+"), sym(nb)}
+			g.equs[n] = g.equs[na] + g.equs[nb]
 		}
 		items = append(items, item{T: "equ", Names: []string{n}, Toks: toks})
 	}
